@@ -21,8 +21,7 @@ func refDigestMain(args []string) {
 		n++
 	}
 	delims := runDelims(424242)
-	worlds := append([]*world{}, parseWorlds...)
-	worlds = append(worlds, worldCallbacks, worldDurations, worldMisc)
+	worlds := robustWorlds
 	for _, w := range worlds {
 		for _, gen := range []bool{false, true} {
 			if gen && (w.hasGen == nil || !w.hasGen()) {
